@@ -243,9 +243,81 @@ def run_case(case: dict[str, Any]) -> dict[str, Any]:
     return {"status": status, "val": val, "ops": ops, "box": box, "dur": dur}
 
 
+@st.composite
+def eof_case_s(draw) -> dict[str, Any]:
+    """The gateway acknowledges a request, forwards 1-3 diagnostic messages (other frames in between) and then closes the
+    connection; the client reads only after all of that has arrived."""
+    src, tgt = draw(st.sampled_from([(0x0E00, 0x001D), (0x0001, 0xFFFF)]))
+    n = draw(st.integers(1, 3))
+    frames: list[dict[str, Any]] = [{"t": "ack", "echo": "full", "n": 1}]
+    for i in range(n):
+        if draw(st.integers(0, 2)) == 0:
+            frames.append(draw(st.sampled_from([{"t": "alive"}, {"t": "diag-other", "a": 1, "b": 2, "pair": "rand", "p": b"\x01"}, {"t": "unknown", "pt": 0x4002, "p": b"\x00"}])))
+        frames.append({"t": "diag", "p": bytes([0x62, i]) + draw(st.binary(max_size=5))})
+    return {"kind": "eof", "src": src, "tgt": tgt, "ver": draw(st.sampled_from([2, 3])), "frames": frames, "pause": draw(st.sampled_from([0.0501, 0.5001, 1.1001])),
+            "splits": draw(st.lists(st.integers(0, 120), max_size=4)), "request": bytes([0x22]) + draw(st.binary(min_size=2, max_size=4))}
+
+
+def check_eof(case: dict[str, Any]) -> list[tuple[str, str]]:
+    from gallia.transports import TargetURI
+    from gallia.transports.doip import DoIPConfig, DoIPConnection, DoIPTransport
+
+    src, tgt, ver = case["src"], case["tgt"], case["ver"]
+    got: list[tuple[str, Any]] = []
+
+    async def go() -> None:
+        loop = asyncio.get_event_loop()
+        reader = asyncio.StreamReader()
+        wire = Wire(reader, case["splits"])
+
+        def on_write(b: bytes) -> None:
+            if len(b) >= 8 and struct.unpack("!H", b[2:4])[0] == 0x8001:
+                for i, fr in enumerate(case["frames"]):
+                    wire.emit(1 + i, enc(fr, src, tgt, ver, b[12:]), {"frame": fr})
+                loop.call_later((len(case["frames"]) + 3) * 0.01, reader.feed_eof)
+
+        writer = MemWriter(on_write)
+        conn = DoIPConnection(reader, writer, src, tgt, ver)  # type: ignore[arg-type]
+        tr = DoIPTransport(TargetURI(f"doip://192.0.2.1:13400?src_addr={src}&target_addr={tgt}"), 13400,
+                           DoIPConfig(src_addr=str(src), target_addr=str(tgt), protocol_version=str(ver)), conn)
+        await tr.write(case["request"], timeout=None)
+        await asyncio.sleep(case["pause"])
+        for _ in range(len(case["frames"]) + 1):
+            try:
+                got.append(("ok", await tr.read(timeout=2.3701)))
+            except TimeoutError:
+                got.append(("timeout", None))
+                break
+            except ConnectionError as e:
+                got.append(("connerr", repr(e)))
+                break
+            except Exception as e:  # noqa: BLE001
+                got.append((f"exc:{type(e).__name__}", repr(e)))
+                break
+        wire.closed = True
+        try:
+            await conn.close()
+        except Exception:  # noqa: BLE001
+            pass
+
+    status, val, _ = run_virtual(go, max_virtual=1e4)
+    if status != "ok":
+        return [(f"C06/eof/run-{status}", f"{val!r}; reads so far {got}")]
+    want = [("ok", fr["p"]) for fr in case["frames"] if fr["t"] == "diag"]
+    have = [(k, v) for k, v in got if k == "ok"]
+    if have != want:
+        return [("C06/read/received-messages-lost-at-end-of-stream", f"gateway sent {[w[1].hex() for w in want]} and closed; after a pause of {case['pause']} s the reads gave "
+                 f"{[(k, v.hex() if isinstance(v, bytes) else v) for k, v in got]}")]
+    if not got or got[-1][0] != "connerr":
+        return [("C06/read/end-of-stream-not-reported", f"reads gave {[(k, v.hex() if isinstance(v, bytes) else v) for k, v in got]}")]
+    return []
+
+
 def check(case: dict[str, Any]) -> list[tuple[str, str]]:
     if case.get("kind") == "activation":
         return check_activation(case)
+    if case.get("kind") == "eof":
+        return check_eof(case)
     r = run_case(case)
     if r["status"] != "ok":
         return [(f"C06/run-{r['status']}", f"program did not finish: {r['status']} {r['val']!r}; ops {[(o.kind, o.outcome) for o in r['ops']]}")]
@@ -437,6 +509,8 @@ def activation_s(draw) -> dict[str, Any]:
 def nontrivial(case: dict[str, Any]) -> bool:
     if case.get("kind") == "activation":
         return case["code"] != 0x10 or bool(case["pre"]) or case["atype"] not in (0, 1)
+    if case.get("kind") == "eof":
+        return True
     other = any(f["t"] != "ack" for rx in case["reactions"] for _, f in rx) or bool(case["unsolicited"])
     return other or any(s % 5 for s in case["splits"])
 
@@ -444,8 +518,8 @@ def nontrivial(case: dict[str, Any]) -> bool:
 def shards(tier: str) -> list[dict[str, Any]]:
     if tier == "quick":
         return [{"what": "demux", "n": 230} for _ in range(12)] + [{"what": "act-gen", "n": 300}, {"what": "act-grid", "types": list(range(256)), "codes": [0x10, 0x00, 0x06, 0x11]},
-                                                                   {"what": "act-grid", "types": [0, 1], "codes": list(range(256))}, {"what": "act-gen", "n": 300}]
-    return [{"what": "demux", "n": 25000} for _ in range(12)] + [{"what": "act-gen", "n": 15000}] + \
+                                                                   {"what": "act-grid", "types": [0, 1], "codes": list(range(256))}, {"what": "act-gen", "n": 300}, {"what": "eof", "n": 150}]
+    return [{"what": "demux", "n": 25000} for _ in range(12)] + [{"what": "act-gen", "n": 15000}, {"what": "eof", "n": 5000}] + \
         [{"what": "act-grid", "types": list(range(i, 256, 8)), "codes": list(range(256))} for i in range(8)]
 
 
@@ -457,6 +531,8 @@ def run_shard(spec: dict[str, Any], seed: int) -> Collector:
         if case.get("kind") == "activation":
             cl = "activation/" + ("success" if case["code"] == 0x10 and case["answer"] else "denied" if case["answer"] else "silent")
             sample: Any = case
+        elif case.get("kind") == "eof":
+            cl, sample = "end-of-stream-after-data", case
         else:
             kinds = sorted({f["t"] for rx in case["reactions"] for _, f in rx} | {f["t"] for _, f in case["unsolicited"]})
             cl = "demux/" + ("+".join(k for k in kinds if k in ("alive", "unknown", "nack", "diag-other")) or "plain")
@@ -468,6 +544,8 @@ def run_shard(spec: dict[str, Any], seed: int) -> Collector:
     w = spec["what"]
     if w == "demux":
         run_given(case_s(), body, spec["n"], seed)
+    elif w == "eof":
+        run_given(eof_case_s(), body, spec["n"], seed)
     elif w == "act-gen":
         run_given(activation_s(), body, spec["n"], seed)
     else:
